@@ -145,7 +145,7 @@ static size_t der_mutate(Rng *r, const uint8_t *cert, size_t certlen, uint8_t *o
 	for (int m = 0; m < nm; m++) {
 		int id = (int)rng_below(r, (uint32_t)g_ndn);
 		DNode *d = &g_dn[id];
-		int kind = (int)rng_below(r, 10);
+		int kind = (int)rng_below(r, 12);
 		switch (kind) {
 		case 0: case 1: case 2: d->lenmode = 1 + (int)rng_below(r, 8); snprintf(what, wl, "der_len%d@node%d(tag%02x)", d->lenmode, id, d->tag); break;
 		case 3: d->dup = rng_chance(r, 1, 2) ? 1 : 2 + (int)rng_below(r, 30);        /* once, or a whole run of copies (SEQUENCE OF beyond its receiver's array) */
@@ -176,6 +176,21 @@ static size_t der_mutate(Rng *r, const uint8_t *cert, size_t certlen, uint8_t *o
 			memset(b, v == 0 ? 0x00 : v == 1 ? 0xff : 0x80, k);
 			d->own = b; d->ownlen = k; d->constructed = 0;
 			snprintf(what, wl, "der_content_%zux%02x@node%d(tag%02x)", k, b[0], id, d->tag);
+			break; }
+		case 9: case 10: { /* grow a SEQUENCE OF / SET OF: a constructed node whose children all carry one tag gets 7..40 more
+		                    * copies of its first child (receivers keep such lists in fixed arrays) */
+			int cand[64], nc = 0;
+			for (int i = 0; i < g_ndn && nc < 64; i++) {
+				if (g_dn[i].constructed != 1 || g_dn[i].first < 0) continue;
+				int f = g_dn[i].first, same = 1;
+				if (g_dn[f].rawlen > 48) continue;
+				for (int c2 = g_dn[f].next; c2 >= 0; c2 = g_dn[c2].next) if (g_dn[c2].tag != g_dn[f].tag) same = 0;
+				if (same) cand[nc++] = f;
+			}
+			if (!nc) break;
+			int f = cand[rng_below(r, (uint32_t)nc)];
+			g_dn[f].dup = 7 + (int)rng_below(r, 34);
+			snprintf(what, wl, "der_list_grown_by_%d@node%d(tag%02x)", g_dn[f].dup, f, g_dn[f].tag);
 			break; }
 		case 8: { /* time values whose fields are digits but out of range (month 13..99, day 00/32.., hour 24..) */
 			int tries = 0, o = id;
@@ -508,7 +523,7 @@ static void byz_gen(Plan *p, uint64_t base_seed, uint64_t variant, int tier)
 	p->interpose = 1;
 	p->eagain = 0;
 	gen_rounds(p, &g, tier, 1, 300);
-	if (rng_chance(&g, 1, 3)) p->cred_mode |= 1;       /* certificates with an extendedKeyUsage extension */
+	if (rng_chance(&g, 1, 2)) p->cred_mode |= 1;       /* certificates with an extendedKeyUsage extension */
 	/* twin: how many handshake records does each direction carry? */
 	if (getenv("GMSIM_GEN_NOTWIN")) return;
 	uint64_t key = hash_bytes(0xb7, &p->sched_seed, 8) ^ (uint64_t)p->proto ^ ((uint64_t)p->mutual << 8) ^ ((uint64_t)p->depth << 16);
